@@ -464,6 +464,7 @@ func RunRandomPar(r *hx.Rand, p Profile, par int) (*Exec, *Monitor) {
 		if m.Cyclic && (len(m.Findings) > 0 || len(e.Ops) > m.CyclicAt+6) {
 			break
 		}
+		m.EdgesAfterRejectedAddInput(op, s)
 		if m.Rejected {
 			// the state after a structural rejection is a recorded finding; what later
 			// operations do on it says nothing more (and can hang)
